@@ -310,30 +310,30 @@ func fatReadB(b backend.Storage, ft int, size, start, lss int64) (fatFS, error) 
 }
 
 type fatRun struct {
-	t      *core.Trace
-	res    *core.Result
-	prop   string
-	d      *simdisk.Disk
-	fs     fatFS
-	m      *treeModel
-	ft     int
-	size   int64
-	start  int64
-	lss    int64
-	opIdx  int
-	trig   string
-	locus  string
-	held   [3]struct {
+	t     *core.Trace
+	res   *core.Result
+	prop  string
+	d     *simdisk.Disk
+	fs    fatFS
+	m     *treeModel
+	ft    int
+	size  int64
+	start int64
+	lss   int64
+	opIdx int
+	trig  string
+	locus string
+	held  [3]struct {
 		f    filesystem.File
 		path string
 	}
 	firstFill      int64
 	emptied        bool
 	otherSinceFill bool
-	fillSeq   int
-	lastErr   bool
-	histHash  uint64
-	mutated   bool
+	fillSeq        int
+	lastErr        bool
+	histHash       uint64
+	mutated        bool
 }
 
 func (x *fatRun) want(clause string) bool { return strings.HasPrefix(clause, x.prop+".") }
